@@ -21,6 +21,27 @@ CLAIMED = {
               "zarr zip/directory stores on every run; store kind, compression level, path type and mode are exercised "
               "only by the concrete validation/replay runs; floats are reals until realised"),
         design_ref="DESIGN.md §5 C01"),
+    "C08": dict(
+        engine="X",
+        technique="CrossHair symbolic execution of the real save()/load() on an in-memory file system with a symbolic fault index; post-state assertion; replay with mock-injected faults on the real file system",
+        text=("bounded model checking of failed saves: the index k of the write operation that raises is a solver variable "
+              "(0..90), store/mode/pre-existing target/object shape/unserialisable attribute are enumerated per job; "
+              "'Confirmed over all paths' = for every k the target is absent, unreadable or a complete earlier object, "
+              "write-once leaves the target untouched and no other path changes"),
+        note=("trusts CrossHair/z3 and the file-system/zarr layout model (vf/stubs/memfs.py: atomic single calls, zarr "
+              "attribute caching, zip central directory written on close); faults are exceptions at write/assembly calls, "
+              "not power loss; counterexamples are confirmed on the real file system before being reported"),
+        design_ref="DESIGN.md §5 C08"),
+    "C14": dict(
+        engine="X",
+        technique="CrossHair symbolic execution of the real save()/load() skip handling on the in-memory store model; reference-model post-condition; replay on the real stores",
+        text=("bounded model checking: save-time and load-time skip names (universe of 9 names over 3 nesting levels) and a "
+              "save-time type are chosen by symbolic selectors, payloads are symbolic; the loaded attribute tree is "
+              "compared with a reference model, load-time skipping with save-time skipping, and recorded skips with "
+              "repeated ones"),
+        note=("trusts CrossHair/z3 and the in-memory store model; <= 1 (quick) / 2 (thorough) names per list; objects "
+              "inside containers and load-time type skipping are outside, as the property states"),
+        design_ref="DESIGN.md §5 C14"),
     "C19": dict(
         engine="X",
         technique="CrossHair symbolic execution of the real config functions (z3), reference-model post-conditions, counterexample replay",
